@@ -2,9 +2,19 @@
 from regexgen import *
 ENGINE = "regex"
 TIMEOUT = 900
-ASSUMPTIONS = ["oracle: a re-issued construction must return the very same term (== and pointer identity); complement is an involution without fixed points; the language of a construction is judged by the reference matcher whatever history preceded it"]
+ASSUMPTIONS = ["sub_terms / leaves are determined by the term (C07c): the ids yielded must equal the model's, in order", "oracle: a re-issued construction must return the very same term (== and pointer identity); complement is an involution without fixed points; the language of a construction is judged by the reference matcher whatever history preceded it"]
 
 CTOR = ("char", "range", "str", "concat", "union", "inter", "comp", "diff", "star", "plus", "opt", "pow", "loop", "loopinf", "concatl", "unionl", "interl", "smtrange", "diffl", "allchar", "all", "eps", "none")
+
+
+def subterm_obs(rng, case, t):
+    """sub_terms / leaves (ids in order) and RE::is_empty / num_deriv_classes / valid_class_id"""
+    case.obs("subterms %d" % t)
+    if rng.random() < 0.7:
+        case.obs("leaves %d" % t)
+    if rng.random() < 0.6:
+        cids = ["c"] + [str(rng.choice([0, 1, 2, 3, 5, 9])) for _ in range(rng.randint(1, 3))]
+        case.obs("reinfo %d %d %s" % (t, len(cids), " ".join(cids)))
 
 
 def one_case(rng, tier, wrapped=False):
@@ -30,12 +40,33 @@ def one_case(rng, tier, wrapped=False):
             case.obs("empty %d" % rng.choice(pool))
         elif r < 0.88 and not wrapped:
             case.obs("compile %d" % rng.choice(pool))
-        elif r < 0.94:
+        elif r < 0.92:
             t = rng.choice(pool)
             c1 = case.push("comp %d" % t); c2 = case.push("comp %d" % c1)
             case.obs("same %d %d" % (t, c2)); case.obs("differ %d %d" % (t, c1))
+        elif r < 0.96:
+            subterm_obs(rng, case, rng.choice(pool))
         else:
             case.obs("mem %d %s" % (rng.choice(pool), word([al.rand_char(rng) for _ in range(rng.choice([0, 1, 2, 3]))])))
+    # hash-consing seen through the sub-term iterators: terms in which the same sub-term occurs several
+    # times (on both sides of a concatenation, under a loop and outside it, in two operands of a union)
+    # must yield it once
+    for _ in range(rng.choice([0, 1, 1, 2])):
+        t = rng.choice(pool); u = rng.choice(pool)
+        k = rng.randrange(4)
+        if k == 0:
+            x = case.push("concat %d %d" % (t, t))
+        elif k == 1:
+            a = case.push("concat %d %d" % (t, u)); b = case.push("concat %d %d" % (u, t))
+            x = case.push("union %d %d" % (a, b))
+        elif k == 2:
+            a = case.push("star %d" % t); b = case.push("concat %d %d" % (a, t))
+            x = case.push("inter %d %d" % (b, u))
+        else:
+            a = case.push("comp %d" % t); b = case.push("concat %d %d" % (a, u))
+            x = case.push("union %d %d" % (b, t))
+        pool.append(x)
+        subterm_obs(rng, case, x)
     # re-issue constructions after the rest of the history
     idx = 0
     ctor_stmts = []
@@ -76,7 +107,7 @@ def generate(rng, tier):
         st = ["char 98"] + ["pow 0 %d" % k for k in range(2, nlong + 2)]
         st += ["char 98", "same 0 %d" % (nlong + 1), "pow 0 5", "same 4 %d" % (nlong + 2), "str 2 98 98", "pow 0 2", "same %d %d" % (nlong + 3, nlong + 4)]
         cases.append(" ; ".join(st))
-    info = {"rule": "random histories of 5-40 statements on one manager (constructors with operands allocated in varied id order, interleaved derivatives, iter_derivatives, is_empty_re, compile that allocate ids and fill the cache), complement involution / no fixed point, then up to 6 earlier constructor statements re-issued verbatim and compared by == and pointer identity with the original; final membership bits against the denotation; a share of cases goes through the SMT-LIB wrappers on a fresh thread-local manager",
+    info = {"rule": "random histories of 5-40 statements on one manager (constructors with operands allocated in varied id order, interleaved derivatives, iter_derivatives, is_empty_re, compile that allocate ids and fill the cache), complement involution / no fixed point, sub_terms / leaves / is_empty / num_deriv_classes / valid_class_id on pool terms and on terms built to contain one sub-term several times (each sub-term must be yielded once, in breadth-first order), then up to 6 earlier constructor statements re-issued verbatim and compared by == and pointer identity with the original; final membership bits against the denotation; a share of cases goes through the SMT-LIB wrappers on a fresh thread-local manager",
             "distribution": {"cases": n, "via_wrappers": nw}}
     return cases, info
 
